@@ -51,21 +51,28 @@ pub fn check_encoding(c: &Case, rep: &mut Report) {
         return;
     }
     let dts = m["production_datatypes"].as_array().cloned().unwrap_or_default();
-    // terminal numbering of the analysis: order of first occurrence in the productions, identity =
-    // (text, raw or not, lookahead), first user token = 5 (own walk, not parol's helper)
-    let mut ident: Vec<(String, bool, String)> = vec![];
-    let term_id = |s: &Symbol| -> Option<(String, bool, String)> {
-        if let Symbol::T(parol::Terminal::Trm(t, k, _, _, _, _, l)) = s { Some((t.clone(), matches!(k, parol::TerminalKind::Raw), format!("{l:?}"))) } else { None }
-    };
-    for p in gc.cfg.pr.iter() {
-        for s in p.get_r() {
-            if let Some(id) = term_id(s) {
-                if !ident.contains(&id) {
-                    ident.push(id);
-                }
-            }
+    // the index a production may use for a terminal is the one the scanner table of the same export
+    // model assigns to the terminal with that identity (text, raw or not, lookahead) - no numbering
+    // scheme is assumed, only agreement between the parts
+    let raw_kind = |v: &Value| v.as_str() == Some("Raw");
+    let ident: Vec<(usize, (String, bool, Option<(bool, String, bool)>))> = m["scanner"]["terminals"]
+        .as_array()
+        .map(|a| {
+            a.iter()
+                .map(|t| {
+                    let la = if t["lookahead"].is_null() { None } else { Some((t["lookahead"]["is_positive"].as_bool().unwrap_or(true), t["lookahead"]["pattern"].as_str().unwrap_or("").to_string(), raw_kind(&t["lookahead"]["kind"]))) };
+                    (u(&t["index"]), (t["pattern"].as_str().unwrap_or("").to_string(), raw_kind(&t["kind"]), la))
+                })
+                .collect()
+        })
+        .unwrap_or_default();
+    let term_id = |s: &Symbol| -> Option<(String, bool, Option<(bool, String, bool)>)> {
+        if let Symbol::T(parol::Terminal::Trm(t, k, _, _, _, _, l)) = s {
+            Some((t.clone(), matches!(k, parol::TerminalKind::Raw), l.as_ref().map(|l| (l.is_positive, l.pattern.clone(), matches!(l.kind, parol::TerminalKind::Raw)))))
+        } else {
+            None
         }
-    }
+    };
     for (pi, p) in gc.cfg.pr.iter().enumerate() {
         let lhs = mnts.iter().position(|n| *n == p.get_n()).unwrap_or(usize::MAX);
         let mp = &mprods[pi];
@@ -74,7 +81,7 @@ pub fn check_encoding(c: &Case, rep: &mut Report) {
         }
         let mrhs: Vec<(bool, usize)> = mp["rhs"].as_array().map(|a| a.iter().map(|s| if let Some(n) = s.get("NonTerminal") { (false, u(n)) } else { (true, u(&s["Terminal"]["index"])) }).collect()).unwrap_or_default();
         // shape against the grammar
-        let shape: Vec<(bool, Option<usize>)> = p.get_r().iter().map(|s| match s { Symbol::N(n, ..) => (false, mnts.iter().position(|x| x == n)), _ => (true, term_id(s).and_then(|id| ident.iter().position(|x| *x == id)).map(|i| i + 5)) }).collect();
+        let shape: Vec<(bool, Option<usize>)> = p.get_r().iter().map(|s| match s { Symbol::N(n, ..) => (false, mnts.iter().position(|x| x == n)), _ => (true, term_id(s).and_then(|id| ident.iter().find(|x| x.1 == id)).map(|x| x.0)) }).collect();
         if mrhs.len() != shape.len() || mrhs.iter().zip(shape.iter()).any(|(a, b)| a.0 != b.0 || Some(a.1) != b.1) {
             bad(rep, "model-production-rhs", format!("export model production {pi} rhs {mrhs:?} does not match {p}"));
         }
